@@ -3,6 +3,8 @@ import PbBss.Proofs.FixedPointChain
 import PbBss.Proofs.FixedPointCacg
 import PbBss.Proofs.EmVmf
 import PbBss.Proofs.FixedPointVmf
+import PbBss.Proofs.FixedPointSph
+import PbBss.Proofs.FixedPointCacgChain
 /-! # C03 — the true partition of separable data is a stable EM fixed point
 
 What is proved here (about the SAME definitions `driver_em` / `driver_dist` / `driver_posterior` execute, at
@@ -22,7 +24,12 @@ What is proved here (about the SAME definitions `driver_em` / `driver_dist` / `d
 5. the **vMF mixture** on the executable model: the first M-step from the hard true partition returns the prototypes
    exactly (any class masses), one full EM round (`vmf_round_hard`), and the complete `n`-step fixed-point theorem by
    induction over `Em.fit` for the balanced scene (`fixed_point_vmf_balanced`: means, common concentration, "points
-   at the true prototype", arg-max = truth, for every `n ≥ 1`).
+   at the true prototype", arg-max = truth, for every `n ≥ 1`);
+6. the **spherical Gaussian mixture**: the complete `n`-step fixed-point theorem for the balanced scene from a strictly
+   blurred start (`fixed_point_sph_balanced`; the hard start on noise-free classes has variance 0 — no density);
+7. the **cACG mixture**: the complete `n`-step fixed-point theorem for the balanced scene from the hard start and from
+   blurred starts with `h₀ ≤ floor·g₀` (`fixed_point_cacg_balanced`, `_blur`; the trajectory is stationary after the
+   first M-step: every class stays `U diag(1, floor, …, floor) Uᴴ` on its prototype, `cacg_trajectory_stationary`).
 
 NOT proved: the quantitative statement for `|cos| ≤ 0.3`, perturbation `≤ 1e-2` (needs eigenvector perturbation
 bounds), the Bingham model, fixed-point statements for the full-covariance Gaussian / integration trainers (their
@@ -763,5 +770,103 @@ example (n : Nat) (hn : 1 ≤ n) (obs : Fin 2) :
     (3/4) (1/4) (by norm_num) (by norm_num) (by norm_num) n hn).2.2.2.2 obs
 
 end vmf_fixed_point
+
+/-! ## The spherical Gaussian mixture: fixed point of the EM loop (`PbBss/Proofs/FixedPointSph.lean`) -/
+section sph_fixed_point
+variable {K N D : Nat} {a : Fin (K+1) → Fin D → ℝ} {c : Fin N → Fin (K+1)} {y : Fin N → Fin D → ℝ}
+
+/-- **the true partition is a stable fixed point for EVERY number of iterations (GMM, spherical covariances, balanced
+scene)**.  Noise-free classes on real orthonormal means, start = the true partition blurred by a uniform leak with
+`0 < h₀ < g₀` (STRICTLY blurred: from the hard start the variance of a noise-free class is 0 and the Gaussian has no
+density — outside the property), uniform weights, equal positive class masses `S ≥ tinyG`, at least two classes,
+E-step denominator clamp inactive.  Then for every `n ≥ 1` the model `fit n γ₀` has posterior levels `0 < h < g`, every
+class the mean `g·a_k + h·Σ_{j≠k} a_j` (strictly closer to its own prototype than to any other), one common variance
+`sphVar K D g h > 0`, and the arg-max of its E-step is the true class at every observation.  Induction over the EM loop;
+the totalised `1/sqrt 0`, `log 0` of the real-number model are never used (`sphLogPdf` is rewritten only under `0 < var`). -/
+theorem fixed_point_sph_balanced (ha : OrthoProtoR a) (hy : ∀ n d, y n d = a (c n) d) (hK : 1 ≤ K)
+    (tinyG log2pi : ℝ) (tiny : ℝ) (htiny : 0 < tiny) (ht : tiny ≤ 1 / ((K+1 : ℕ) : ℝ))
+    (rule : WeightRule) (tie : Tying N) (htie : tie.uniform = true) (eps : ℝ) (s : Fin N → ℝ) (S : ℝ) (hS : 0 < S)
+    (hbal : ∀ k, classMass c s k = S) (hguard : tinyG ≤ S)
+    (g₀ h₀ : ℝ) (hgh : g₀ + K * h₀ = 1) (hh0 : 0 < h₀) (hlt : h₀ < g₀) (n : Nat) (hn : 1 ≤ n) :
+    let fam := sphFamily D tinyG log2pi
+    let θ := fit tiny fam rule tie eps s y n (twoLevel c g₀ h₀)
+    let g := (sphLevSeq D K g₀ h₀ (n-1)).1
+    let h := (sphLevSeq D K g₀ h₀ (n-1)).2
+    let v := sphVar K D g h
+    (g + K * h = 1 ∧ 0 < h ∧ h < g)
+      ∧ 0 < v
+      ∧ (∀ k, (∀ d, rd (θ.c k).mean d = ∑ j, (if j = k then g else h) * a j d) ∧ (θ.c k).var = v)
+      ∧ (∀ k j, j ≠ k → ∑ d, (rd (θ.c k).mean d - a k d) ^ 2 < ∑ d, (rd (θ.c k).mean d - a j d) ^ 2)
+      ∧ ∀ obs, vargmax (fun k => eStep tiny fam θ y k obs) = c obs :=
+  FixedPoint.fixed_point_sph_balanced ha hy hK tinyG log2pi tiny htiny ht rule tie htie eps s S hS hbal hguard g₀ h₀ hgh
+    hh0 hlt n hn
+
+/-- non-vacuity: two classes on the standard basis of `ℝ²`, start `(3/4, 1/4)`, all `n ≥ 1` (first variance `3/16`) -/
+example (n : Nat) (hn : 1 ≤ n) (obs : Fin 2) :
+    vargmax (fun k => eStep (1/4) (sphFamily 2 (1/2) 0)
+      (fit (1/4) (sphFamily 2 (1/2) 0) WeightRule.unitNorm ⟨true, 1, tab fun _ => 0⟩ 0
+        (fun _ => 1) a2R n (twoLevel (fun m : Fin 2 => m) (3/4) (1/4))) a2R k obs) = obs :=
+  (fixed_point_sph_balanced ortho_a2R (c := fun m : Fin 2 => m) (fun _ _ => rfl) le_rfl (1/2) 0 (1/4) (by norm_num)
+    (by norm_num) WeightRule.unitNorm ⟨true, 1, tab fun _ => 0⟩ rfl 0 (fun _ => 1) 1 one_pos
+    (fun k => by fin_cases k <;> simp [classMass]) (by norm_num)
+    (3/4) (1/4) (by norm_num) (by norm_num) (by norm_num) n hn).2.2.2.2 obs
+
+end sph_fixed_point
+
+/-! ## The cACG mixture: fixed point of the EM loop for every number of iterations (`PbBss/Proofs/FixedPointCacgChain.lean`) -/
+section cacg_fixed_point
+open PbBss.FixedPoint.CacgChain
+variable {K N D : Nat} {a : Fin (K+1) → Fin (D+1) → ℂ} {c : Fin N → Fin (K+1)} {z : Fin N → Fin (D+1) → ℂ}
+  (eigh : Tab (D+1) (Tab (D+1) ℂ) → Tab (D+1) (Tab (D+1) ℂ) × Tab (D+1) ℝ) (tiny floor : ℝ)
+  (rule : WeightRule) (tie : Tying N) (eps : ℝ) (s : Fin N → ℝ)
+
+/-- **the true partition is a stable fixed point for EVERY number of iterations (cACGMM, balanced scene)**.
+Noise-free orthonormal scene, hard start on the truth, uniform weights, equal class masses `S ≥ tiny`, `eigh` under its
+contract (orthonormal eigenvector columns, no ordering), `0 < floor < 1`, `covariance_norm = 'eigenvalue'`; guards:
+quadratic-form floor (`10·tiny ≤ 1`) and posterior denominator clamp (`tiny ≤ 1/(K+1)`) inactive.  Induction over `fit`
+with the quadratic forms of the preceding E-step as Tyler weights. -/
+theorem fixed_point_cacg_balanced (sc : Scene a c z) (heigh : EighOn eigh tiny z) (htiny : 0 < tiny)
+    (h10 : ((10 : ℕ) : ℝ) * tiny ≤ 1) (ht : tiny ≤ 1 / ((K+1 : ℕ) : ℝ)) (hf0 : 0 < floor) (hf1 : floor < 1)
+    (htie : tie.uniform = true) (S : ℝ) (hS : tiny ≤ S) (hbal : ∀ k, classMass c s k = S) :
+    ∀ n, 1 ≤ n → ∀ obs,
+      vargmax (fun k => eStep tiny (cacgFamily D eigh CovNorm.eigenvalue floor tiny)
+        (fit tiny (cacgFamily D eigh CovNorm.eigenvalue floor tiny) rule tie eps s z n (hardStart c)) z k obs) = c obs :=
+  CacgChain.fixed_point_cacg_balanced eigh tiny floor rule tie eps s sc heigh htiny h10 ht hf0 hf1 htie S hS hbal
+
+/-- the same from a blurred start with `h₀ ≤ floor·g₀` (a larger leak puts a middle eigenvalue between `floor` and 1
+on the other prototypes in the first covariance; that case is not proved) -/
+theorem fixed_point_cacg_balanced_blur (sc : Scene a c z) (heigh : EighOn eigh tiny z) (htiny : 0 < tiny)
+    (h10 : ((10 : ℕ) : ℝ) * tiny ≤ 1) (ht : tiny ≤ 1 / ((K+1 : ℕ) : ℝ)) (hf0 : 0 < floor) (hf1 : floor < 1)
+    (htie : tie.uniform = true) (S : ℝ) (hS : tiny ≤ S) (hbal : ∀ k, classMass c s k = S)
+    (g₀ h₀ : ℝ) (hgh : g₀ + K * h₀ = 1) (hh0 : 0 ≤ h₀) (hlt : h₀ ≤ floor * g₀) :
+    ∀ n, 1 ≤ n → ∀ obs,
+      vargmax (fun k => eStep tiny (cacgFamily D eigh CovNorm.eigenvalue floor tiny)
+        (fit tiny (cacgFamily D eigh CovNorm.eigenvalue floor tiny) rule tie eps s z n (twoLevel c g₀ h₀)) z k obs)
+        = c obs :=
+  CacgChain.fixed_point_cacg_balanced_blur eigh tiny floor rule tie eps s sc heigh htiny h10 ht hf0 hf1 htie S hS hbal
+    g₀ h₀ hgh hh0 hlt
+
+/-- the trajectory is stationary: after every `n ≥ 1` iterations each class is `U diag(1, floor, …, floor) Uᴴ` with the
+eigenvalue-1 eigenvector on its prototype, and the posterior is the same two-level table -/
+theorem cacg_trajectory_stationary (sc : Scene a c z) (heigh : EighOn eigh tiny z) (htiny : 0 < tiny)
+    (h10 : ((10 : ℕ) : ℝ) * tiny ≤ 1) (ht : tiny ≤ 1 / ((K+1 : ℕ) : ℝ)) (hf0 : 0 < floor) (hf1 : floor < 1)
+    (htie : tie.uniform = true) (S : ℝ) (hS : tiny ≤ S) (hbal : ∀ k, classMass c s k = S) (n : Nat) (hn : 1 ≤ n) :
+    (∀ k, Spiked ((fit tiny (cacgFamily D eigh CovNorm.eigenvalue floor tiny) rule tie eps s z n (hardStart c)).c k)
+        (a k) floor)
+      ∧ ∀ k obs, eStep tiny (cacgFamily D eigh CovNorm.eigenvalue floor tiny)
+          (fit tiny (cacgFamily D eigh CovNorm.eigenvalue floor tiny) rule tie eps s z n (hardStart c)) z k obs
+        = if c obs = k then ratioE D floor / (ratioE D floor + K) else 1 / (ratioE D floor + K) :=
+  CacgChain.cacg_trajectory_stationary eigh tiny floor rule tie eps s sc heigh htiny h10 ht hf0 hf1 htie S hS hbal n hn
+
+/-- non-vacuity: the two-class scene on the standard basis of `ℂ²` (`tiny = 1/100`, `floor = 1/2`), all `n ≥ 1` -/
+example : ∀ n, 1 ≤ n → ∀ obs : Fin 2,
+    vargmax (fun k => eStep (1/100) (cacgFamily 1 diagEigh CovNorm.eigenvalue (1/2) (1/100))
+      (fit (1/100) (cacgFamily 1 diagEigh CovNorm.eigenvalue (1/2) (1/100)) WeightRule.mean ⟨true, 1, tab fun _ => 0⟩ 0
+        (fun _ => 1) a2 n (hardStart fun m : Fin 2 => m)) a2 k obs) = obs :=
+  fixed_point_cacg_balanced (K := 1) diagEigh (1/100) (1/2) WeightRule.mean ⟨true, 1, tab fun _ => 0⟩ 0 (fun _ => 1)
+    scene2 (eighOn2 _) (by norm_num) (by norm_num) (by norm_num) (by norm_num) (by norm_num) rfl 1 (by norm_num)
+    (fun k => by fin_cases k <;> simp [classMass])
+
+end cacg_fixed_point
 
 end PbBss.C03
